@@ -18,8 +18,12 @@ The Lean model (`Model/Tuner.lean`, driver `Drivers/Loop.lean`) is a machine
 `step : State -> Answer -> State x Call`; it is fed the answers and must reproduce the calls
 exactly and in order, and at the end the counters, statistics, best trials and log rows.
 
-Monitors (`monitor_c01`, `monitor_c12`, `monitor_c13_loop`, `monitor_c17`, `monitor_c20_loop`,
-`monitor_k`) are direct readings of the property statements on the recorded dialogue.
+Monitors (`monitor_c01`, `monitor_c12`, `monitor_counters_backend`, `monitor_c13_loop`, `monitor_c17`,
+`monitor_c20_loop`, `monitor_k`) are direct readings of the property statements on the recorded dialogue.
+The witnesses of the Lean `_counterexample` theorems (`WITNESSES`) are handed out by the driver (op `witness`),
+replayed call by call on the real Tuner (`witness_specs`, `monitor_witness`) and reported in the evidence
+(`witness_report`).  A run whose dialogue has no alternating call/answer order (a real backend call raising by
+itself after nested recorded calls) is skipped and counted (`skipped:unlinearisable`).
 """
 import contextlib
 import io
@@ -185,6 +189,8 @@ class Recorder(TunerCallback):
         self.tuner = None
         self.snapshots = []  # (label, {tid: status}) after every loop iteration
         self.crit_trace = []
+        self.crit_status = []   # per `_stop_condition()`: (dialogue position, value, {tid: status}, number of reported results)
+        self.sched_running = []  # per `_schedule_new_tasks`: (dialogue position, len(running_trials_ids) at entry)
 
     def _ev(self, *call):
         if self.tuner is not None and self.tuner.tuning_status is not None:
@@ -579,9 +585,10 @@ class ScriptScheduler(TrialScheduler):
     """PRNG scheduler obeying contract K: random decisions, random start / start-from-checkpoint /
     resume-of-a-paused-trial / none suggestions."""
 
-    def __init__(self, seed, params, metric_names, modes, sim=False):
+    def __init__(self, seed, params, metric_names, modes, sim=False, max_t=None):
         super().__init__({"a": randint(0, 2), "b": randint(0, 1)} if sim else {"x": uniform(0, 1), "k": randint(0, 3)})
         self.sim = sim
+        self.max_t = max_t  # simulator only: last fidelity of the table
         self.rng = random.Random(seed)
         self.p = params
         self._metric_names, self._modes = metric_names, modes
@@ -627,6 +634,11 @@ class ScriptScheduler(TrialScheduler):
         if u < self.p.get("p_stop", 0.15):
             return SchedulerDecision.STOP
         if u < self.p.get("p_stop", 0.15) + self.p.get("p_pause", 0.15):
+            if self.sim and self.max_t is not None and isinstance(result, dict) and int(result.get(RES, 0)) >= self.max_t:
+                # a trial paused at the last fidelity of the simulator's table has nothing left to report: resuming it
+                # makes the real backend raise IndexError (`results[0]` of an empty list) at the next event it
+                # processes; real schedulers STOP at max_t, so does this one
+                return SchedulerDecision.STOP
             return SchedulerDecision.PAUSE
         return SchedulerDecision.CONTINUE
 
@@ -664,16 +676,16 @@ class ScriptScheduler(TrialScheduler):
         return out
 
 
-def make_script_scheduler(seed, params, metric_names, modes, with_ckpt_mixin, sim=False):
+def make_script_scheduler(seed, params, metric_names, modes, with_ckpt_mixin, sim=False, max_t=None):
     if with_ckpt_mixin:
         from syne_tune.callbacks.remove_checkpoints_callback import DefaultRemoveCheckpointsSchedulerMixin
 
         class ScriptSchedulerCk(DefaultRemoveCheckpointsSchedulerMixin, ScriptScheduler):
             trials_checkpoints_can_be_removed = ScriptScheduler.trials_checkpoints_can_be_removed
 
-        s = ScriptSchedulerCk(seed, params, metric_names, modes, sim)
+        s = ScriptSchedulerCk(seed, params, metric_names, modes, sim, max_t if sim else None)
     else:
-        s = ScriptScheduler(seed, params, metric_names, modes, sim)
+        s = ScriptScheduler(seed, params, metric_names, modes, sim, max_t if sim else None)
     orig = s.on_trial_result
 
     def on_trial_result(trial, result):
@@ -792,23 +804,43 @@ class ReplayScheduler(ScriptScheduler):
         return []
 
 
+CRIT_COUNT_FIELDS = ("max_num_trials_started", "max_num_trials_completed", "max_num_trials_finished", "max_num_evaluations")
+
+
 def witness_spec(name, w):
-    """case spec that replays the witness `w` (output of the driver op `witness`) on the real Tuner"""
+    """case spec that replays the witness `w` (output of the driver op `witness`) on the real Tuner; an answer `raise`
+    of the witness becomes an exception injected at that call"""
     crit = {}
-    if w.get("max_num_trials_started") is not None:
-        crit["max_num_trials_started"] = w["max_num_trials_started"]
-    return {"seed": 0, "witness": name, "backend": "replay", "scheduler": {"kind": "replay"},
+    for k in CRIT_COUNT_FIELDS:
+        if w.get(k) is not None:
+            crit[k] = w[k]
+    spec = {"seed": 0, "witness": name, "backend": "replay", "scheduler": {"kind": "replay"},
             "n_workers": w["n_workers"], "max_failures": w["max_failures"],
             "flags": {"async": w["async"], "wait": w["wait"], "swd": w["swd"]},
             "delete_checkpoints": w["delete_checkpoints"], "cb_store": w["store"], "criterion": crit,
-            "replay": {"dialogue": w["dialogue"], "ends": w["ends"]}}
+            "replay": {"dialogue": w["dialogue"], "ends": w["ends"], "expect": w.get("expect")}}
+    raises = [i for i, e in enumerate(w["dialogue"]) if isinstance(e["ans"], dict) and "raise" in e["ans"]]
+    if raises:
+        spec["inject"] = raises[0]
+    return spec
 
 
-WITNESSES = {  # name -> (theorem, signature the monitors must report on the replay)
+WITNESSES = {  # name -> (theorem, signature the monitors must report on the replay; None: the theorem refutes a bound that
+    #                       no monitor reads off, the replay only has to reproduce the run and its final counters)
     "f15": ("SyneTune.C01.notify_polled_counterexample", "c01:trial-never-polled-after-rebind"),
     "clash": ("SyneTune.C01.notify_end_clash_counterexample", "c01:end-notified-twice"),
     "pbt": ("SyneTune.C20Loop.pbt_counterexample", "c20:pbt-source-checkpoint-deleted"),
+    # Lemmas/TunerC12bWitness.lean
+    "cw": ("SyneTune.C12b.completed_overshoot_counterexample", None),
+    "fw": ("SyneTune.C12b.finished_overshoot_counterexample", None),
+    "fn": ("SyneTune.C12b.finished_marked_counterexample", None),
+    "ev": ("SyneTune.C12b.evals_workers_counterexample", "c12:evaluations-overshoot-beyond-n-workers"),
+    "ew": ("SyneTune.C12b.evals_wait_counterexample", None),
+    "fr": ("SyneTune.C12b.finished_end_counterexample", "c01:trial-never-polled-after-rebind"),
+    "addRaise": ("SyneTune.C01b.started_not_recorded_counterexample", "c12:counters-miss-trial-whose-add-raised"),
 }
+# further `_counterexample` theorems whose witness is one of the runs above
+WITNESS_ALSO = {"SyneTune.C01b.running_count_counterexample": "f15"}
 
 
 def witness_specs(driver="SyneTune/Drivers/Loop.lean"):
@@ -827,7 +859,7 @@ def witness_specs(driver="SyneTune/Drivers/Loop.lean"):
 
 
 def monitor_witness(t):
-    """a replay run must reproduce its witness call by call"""
+    """a replay run must reproduce its witness call by call, and end with the counters the model ends with"""
     if "witness" not in t["spec"]:
         return []
     why = witness_mismatch(t)
@@ -839,10 +871,18 @@ def monitor_witness(t):
 
 def witness_mismatch(t):
     """the recorded dialogue of a replay run against the witness it replays: None if they are the same
-    sequence of calls and answers"""
+    sequence of calls and answers (an exception is an exception, whatever its class) and the final counters of the
+    real tuning status / backend are those of the model"""
+    if t.get("skipped"):
+        return str(t["skipped"])
     want = t["spec"]["replay"]["dialogue"]
     got = [{"call": e["call"], "ans": e["ans"]} for e in t["dlg"].entries]
-    canon = lambda x: json.dumps(x, sort_keys=True)
+
+    def canon(x):
+        if isinstance(x.get("ans"), dict) and "raise" in x["ans"]:
+            x = {"call": x["call"], "ans": {"raise": "*"}}
+        return json.dumps(x, sort_keys=True)
+
     if len(got) != len(want):
         return f"{len(got)} calls recorded, witness has {len(want)}"
     for i, (g, w) in enumerate(zip(got, want)):
@@ -851,7 +891,40 @@ def witness_mismatch(t):
     be, sch = t["backend"], t["scheduler"]
     if be.script_exhausted or sch.script_exhausted or be.polls or be.busy or sch.suggestions or sch.decisions:
         return "the script was not consumed exactly"
+    exp = t["spec"]["replay"].get("expect")
+    if exp:
+        fin = t["final"]
+        real = {"started": fin.get("started"), "completed": fin.get("completed"), "failed": fin.get("failed"),
+                "finished": fin.get("finished"), "running": fin.get("running"),
+                "evaluations": (fin.get("overall") or {}).get("count") if isinstance(fin.get("overall"), dict) else None,
+                "backend_trials": len(be.trial_ids), "raised": fin.get("raised") is not None}
+        for k, v in exp.items():
+            if real.get(k) is not None and real[k] != v:
+                return f"final {k}: real {real[k]} model {v}"
     return None
+
+
+def witness_report(ctx, theorems):
+    """for the evidence: theorem -> did this run of the check replay the theorem's witness on the real Tuner, call by call
+    and with the model's final counters, and did the monitors report the signature that goes with it (if one does)"""
+    seen = {(f.get("spec", {}).get("witness"), f["signature"]) for f in ctx.findings}
+    out = {}
+    pairs = [(thm, name) for name, (thm, _) in WITNESSES.items()] + list(WITNESS_ALSO.items())
+    for thm, name in pairs:
+        if thm not in theorems:
+            continue
+        sig = WITNESSES[name][1]
+        ran = ctx.hist.get("witness-replayed:" + name, 0) > 0
+        bad = (name, "loop:witness-not-reproduced:" + name) in seen
+        ok_sig = sig is None or (name, sig) in seen
+        out[thm] = bool(ran and not bad and ok_sig)
+    return out
+
+
+def witness_hist(t):
+    """histogram key of a replay case (read by `witness_report`)"""
+    name = t["spec"].get("witness")
+    return {"witness-replayed:" + name: 1} if name else {}
 
 
 def make_scheduler(sp, seed, max_t, sim):
@@ -868,7 +941,7 @@ def make_scheduler(sp, seed, max_t, sim):
     if kind == "script":
         names = sp.get("metric_names", [METRIC])
         modes = sp.get("modes", "min")
-        return make_script_scheduler(seed, sp.get("params", {}), names, modes, sp.get("ckpt_mixin", False), sim), False
+        return make_script_scheduler(seed, sp.get("params", {}), names, modes, sp.get("ckpt_mixin", False), sim, max_t), False
     if kind == "fifo":
         from syne_tune.optimizer.schedulers.fifo import FIFOScheduler
         so = {"debug_log": False}
@@ -1100,9 +1173,20 @@ def run_loop(spec):
         def stop_condition():
             v = o_stopc()
             rec.crit_trace.append((len(dlg.entries), bool(v)))
+            ts_now = tuner.tuning_status
+            if ts_now is not None:
+                rec.crit_status.append((len(dlg.entries), bool(v), dict(ts_now.last_trial_status_seen),
+                                        int(ts_now.overall_metric_statistics.count)))
             return v
 
         tuner._stop_condition = stop_condition
+        o_sched = tuner._schedule_new_tasks
+
+        def schedule_new_tasks(running_trials_ids):
+            rec.sched_running.append((len(dlg.entries), len(running_trials_ids)))
+            return o_sched(running_trials_ids=running_trials_ids)
+
+        tuner._schedule_new_tasks = schedule_new_tasks
         ckpt_cb = any(type(c).__name__ == "RemoveCheckpointsCallback" for c in tuner.callbacks)
         other_cb = [type(c).__name__ for c in tuner.callbacks[len(callbacks):] if type(c).__name__ != "RemoveCheckpointsCallback"]
         raised, raised_obj = None, None
@@ -1118,8 +1202,12 @@ def run_loop(spec):
                 raised = type(ex).__name__ + (":" + str(ex) if isinstance(ex, ValueError) and "failed" in str(ex) else "")
                 raised_obj = ex
         dlg.active = False
+        skipped = None
         if dlg.unlinearisable:
-            raise RuntimeError("dialogue cannot be linearised: " + dlg.unlinearisable)
+            # a call of the REAL backend / scheduler raised by itself after nested recorded calls had returned: there is no
+            # alternating call/answer order for the model to follow.  The case is skipped (header line only, no monitors)
+            # and counted in the histogram (`skipped:unlinearisable`)
+            skipped = "unlinearisable: " + dlg.unlinearisable
         ts = tuner.tuning_status
         mode = sch.metric_mode()
         final = {"raised": raised}
@@ -1161,7 +1249,7 @@ def run_loop(spec):
         return {"dlg": dlg, "header": header, "final": final, "rows": rows, "tuner": tuner, "backend": be, "scheduler": sch,
                 "sched_label": label, "spec_criterion": spec["criterion"], "spec": spec,
                 "recorder": rec, "names": names, "tmp": tmp, "other_cb": other_cb, "store": store,
-                "raised_obj": raised_obj}
+                "raised_obj": raised_obj, "skipped": skipped}
     finally:
         tuning_status_module.time = old_time
         if old_env is None:
@@ -1227,6 +1315,8 @@ def to_lines(t, view=None):
     final["rows"] = rows_wire(t)
     final["best_rows"] = best_rows_wire(t, view) if view is not None else None
     lines = [(t["header"], {"call": entries[0]["call"]})]
+    if t.get("skipped"):
+        return lines  # header line only: the dialogue has no alternating order for the model to follow
     for i, e in enumerate(entries):
         if i + 1 < len(entries):
             impl = {"call": entries[i + 1]["call"]}
@@ -1488,6 +1578,8 @@ def decisive_fields(t):
 
 def histogram(t):
     h = {}
+    if t.get("skipped"):
+        h["skipped:" + str(t["skipped"]).split(":")[0]] = 1
     for k in call_kinds(t):
         h["call:" + k] = 1
     h["backend:" + ("sim" if t["header"]["sim_callback"] else "script")] = 1
@@ -1536,6 +1628,8 @@ def is_pbt(t):
 
 def monitor_k(t):
     """contract K of the scheduler, monitored on every trace"""
+    if t.get("skipped"):
+        return []
     out = []
     state = {}  # trial -> "live" | "paused" | "dead" | "failed"
     starts = 0
@@ -1584,6 +1678,8 @@ LEGAL_EDGE = {
 
 
 def monitor_c01(t):
+    if t.get("skipped"):
+        return []
     out = []
     k_violated = bool(monitor_k(t))  # lifecycle / resume clauses are guarantees of the loop UNDER contract K
     n = t["header"]["n_workers"]
@@ -1716,6 +1812,8 @@ def monitor_c01(t):
 
 
 def monitor_c13_loop(t):
+    if t.get("skipped"):
+        return []
     out = []
     calls = _calls(t)
     raised = classify_raised(t)
@@ -1761,6 +1859,8 @@ def monitor_c13_loop(t):
 
 
 def monitor_c20_loop(t):
+    if t.get("skipped"):
+        return []
     out = []
     calls = _calls(t)
     deleted = set()
@@ -1814,8 +1914,115 @@ def monitor_c20_loop(t):
     return out
 
 
+def rebindings(t):
+    """the rounds of `_schedule_new_tasks` in which the local `running_trials_ids` was rebound (F15): the busy list was
+    below the threshold and shorter than the loop's running set.  List of (call index, len(busy list), len(running set))"""
+    hdr = t["header"]
+    if hdr["swd"]:
+        return []
+    entries = t["dlg"].entries
+    threshold = hdr["n_workers"] if hdr["async"] else 1
+    out = []
+    for pos, nrun in t["recorder"].sched_running:
+        if pos < len(entries) and entries[pos]["call"][:2] == ["be", "busy"] and isinstance(entries[pos]["ans"], dict) \
+                and "ids" in entries[pos]["ans"]:
+            nb = len(entries[pos]["ans"]["ids"])
+            if nb < threshold and nb < nrun:
+                out.append((pos, nb, nrun))
+    return out
+
+
+def monitor_counters_backend(t):
+    """C12 (last clause) / C01: when run() has returned, normally or by exception — and the `finally` block ran to its end —
+    the trials recorded in the tuning status are the trials the backend has started, and the status recorded for a trial is
+    compatible with the state the backend holds for it"""
+    if t.get("skipped"):
+        return []
+    fin = t["final"]
+    if "last" not in fin:
+        return []
+    calls = _calls(t)
+    seen_end = False
+    for i, cc, a in calls:
+        if cc == ["cb", "tuning_end"]:
+            seen_end = True
+        if seen_end and isinstance(a, dict) and "raise" in a:
+            return []  # the `finally` block itself was interrupted
+    if not seen_end:
+        return []
+    out = []
+    be = t["backend"]
+    got = dict((int(x), y) for x, y in fin["last"])
+    script = isinstance(be, ScriptBackend)
+    # trials whose `start_trial` returned
+    started_ok = {int(cc[2]) for i, cc, a in calls if cc[:2] == ["be", "start"] and a == {"ret": True}}
+    backend_ids = {int(x) for x in be.trial_ids} & started_ok
+    add_raised = {int(cc[2]) for i, cc, a in calls
+                  if (cc[:2] == ["sched", "add"] or cc[:2] == ["cb", "start"]) and isinstance(a, dict) and "raise" in a}
+    resume_raised = {int(cc[2]) for i, cc, a in calls if cc[:2] == ["cb", "resume"] and isinstance(a, dict) and "raise" in a}
+    for tid in sorted(backend_ids - set(got)):
+        if tid in add_raised:
+            out.append(F("c12:counters-miss-trial-whose-add-raised",
+                         f"trial {tid} was started by the backend but is not in the tuning status (num_trials_started={fin['started']}, "
+                         f"the backend holds {len(be.trial_ids)} trials): on_trial_add / on_start_trial raised before "
+                         f"tuning_status.update recorded it", {"trial": tid}))
+        else:
+            out.append(F("c12:counters-differ-from-backend", f"trial {tid} was started by the backend but is not in the tuning status",
+                         {"trial": tid}))
+    for tid in sorted(set(got) - {int(x) for x in be.trial_ids}):
+        out.append(F("c12:counters-differ-from-backend", f"trial {tid} is in the tuning status but the backend never started it",
+                     {"trial": tid}))
+    # per trial: recorded status against the backend's state
+    raised = classify_raised(t)
+    visible = set()
+    for i, cc, a in calls:
+        if cc == ["be", "all_results"] and isinstance(a, dict) and "ids" in a:
+            visible |= set(a["ids"])
+    compatible = {
+        Status.completed: {Status.completed},
+        Status.failed: {Status.failed},
+        Status.paused: {Status.paused},
+        Status.stopping: {Status.stopping, Status.stopped},
+        # stopped by the scheduler's decision, from outside, by stop_all, or recorded as such by `mark_running_job_as_stopped`
+        # while the run had ended by itself after the last poll (or was never polled, F15: reported under its own signature)
+        Status.stopped: {Status.stopped, Status.stopping, Status.completed, Status.failed},
+    }
+    for tid, st in sorted(got.items()):
+        if tid not in backend_ids:
+            continue
+        if script:
+            bst = be.truth.get(tid, {}).get("status")
+        else:
+            if tid not in visible:
+                continue  # the simulator's blind spot: a trial that has not reported yet is invisible to stop_all
+            bst = getattr(be._trial_dict.get(tid), "status", None)
+        if bst is None or st not in compatible:
+            continue  # `in_progress` after the mark is reported by the counters check of monitor_c12
+        ok = set(compatible[st])
+        if raised is not None and st == Status.stopped:
+            ok.add(Status.paused)  # the loop was left by an exception between `pause_trial` and `tuning_status.update`
+        if st in (Status.failed, Status.completed) and any(cc[:3] == ["be", "stop", tid] for _, cc, _ in calls):
+            # the poll that reported the end of the run also delivered a result on which the scheduler decided STOP (the end
+            # clash of `C01.notify_end_clash_counterexample`): the generic `stop_trial` overwrites the backend's record
+            ok.add(Status.stopped)
+        if st == Status.failed and any(cc[:3] == ["be", "pause", tid] for _, cc, _ in calls):
+            ok.add(Status.paused)  # the same clash with a PAUSE decision: `pause_trial` overwrites the record of the failed run
+        if bst not in ok and st == Status.paused and tid in resume_raised:
+            # the sibling of the `on_trial_add` case: `resume_trial` returned, a callback's `on_resume_trial` raised before
+            # `tuning_status.update` recorded the trial as in progress again
+            out.append(F("c12:counters-miss-trial-whose-add-raised",
+                         f"trial {tid} was resumed by the backend (now {bst}) but is still counted as Paused: on_resume_trial raised "
+                         f"before tuning_status.update recorded the resume", {"trial": tid}))
+        elif bst not in ok:
+            out.append(F("c12:counters-differ-from-backend",
+                         f"trial {tid} is counted as {st} but the backend holds it as {bst} after run() returned ({raised})", {"trial": tid}))
+    return out
+
+
 def monitor_c12(t):
     """C12 on the recorded dialogue + the backend after run() has returned"""
+    if t.get("skipped"):
+        return []
     out = []
     calls = _calls(t)
     hdr = t["header"]
@@ -1844,25 +2051,7 @@ def monitor_c12(t):
         exhausted = any(isinstance(a, dict) and a.get("kind") == "none" for _, c, a in calls if c[:2] == ["sched", "suggest"])
         if not exhausted:
             out.append(F("c12:exit-without-criterion", "run() returned although the criterion never held and the space was not exhausted"))
-    # (b) overshoot of count budgets (judged on the status when the loop was left, i.e. at `on_tuning_end`,
-    #     before stop_all turns the still running trials into stopped ones)
-    fin = t["final"]
-    c = t["spec_criterion"]
-    n = hdr["n_workers"]
-    snaps = t["recorder"].snapshots
-    if snaps and any(cc == ["cb", "tuning_end"] for _, cc, _ in calls):
-        at_end = snaps[-1]
-        vals = list(at_end.values())
-        counts = {"started": len(vals), "completed": sum(1 for v in vals if v == Status.completed),
-                  "finished": sum(1 for v in vals if v in (Status.completed, Status.stopped, Status.stopping, Status.failed))}
-        for key, fld in (("max_num_trials_started", "started"), ("max_num_trials_completed", "completed"),
-                         ("max_num_trials_finished", "finished")):
-            # with wait_trial_completion_when_stopping the trials started in the last regular iteration still run to
-            # their end: one more batch of at most n_workers completions
-            slack = n if fld == "started" or not hdr["wait"] else 2 * n
-            if key in c and counts[fld] > int(c[key]) + slack:
-                out.append(F("c12:overshoot", f"{fld}={counts[fld]} when the loop was left, with {key}={c[key]} and n_workers={n}"))
-    # (c) nothing left running (unless the finaliser itself was interrupted)
+    # the `finally` block itself was interrupted (its last steps, `mark_running_job_as_stopped` among them, did not run)
     fin_interrupted = False
     seen_end = False
     for i, cc, a in calls:
@@ -1870,6 +2059,77 @@ def monitor_c12(t):
             seen_end = True
         if seen_end and isinstance(a, dict) and "raise" in a:
             fin_interrupted = True
+    # (b) overshoot of count budgets (Props/C12.lean `overshoot`, Props/C12b.lean)
+    fin = t["final"]
+    c = t["spec_criterion"]
+    n = hdr["n_workers"]
+    snaps = t["recorder"].snapshots
+    FINISHED = (Status.completed, Status.stopped, Status.stopping, Status.failed)
+
+    def counts_of(last):
+        vals = list(last.values())
+        return {"started": len(vals), "completed": sum(1 for v in vals if v == Status.completed),
+                "finished": sum(1 for v in vals if v in FINISHED)}
+
+    count_fields = (("max_num_trials_completed", "completed"), ("max_num_trials_finished", "finished"))
+    # (b1) up to and including the evaluation of `_stop_condition()` that is the first to return True (`*_first`): the count
+    #      is at most m + n_workers; the number of reported results at most m + what the last poll delivered
+    for pos, v, last, nres in t["recorder"].crit_status:
+        cnt = counts_of(last)
+        for key, fld in count_fields:
+            if key in c and cnt[fld] > int(c[key]) + n:
+                out.append(F("c12:overshoot:" + key, f"{fld}={cnt[fld]} at the evaluation of the stopping condition at call {pos} "
+                             f"(no earlier one was true), with {key}={c[key]} and n_workers={n}", {"at": pos}))
+        if "max_num_evaluations" in c:
+            m = int(c["max_num_evaluations"])
+            polls = [len(a["results"]) for i, cc, a in calls if i < pos and cc[:2] == ["be", "fetch"] and isinstance(a, dict) and "results" in a]
+            last_poll = polls[-1] if polls else 0
+            if nres > m + last_poll:
+                out.append(F("c12:overshoot:max_num_evaluations", f"{nres} results counted at the evaluation of the stopping condition at "
+                             f"call {pos} (no earlier one was true), with max_num_evaluations={m}; the last poll delivered {last_poll}", {"at": pos}))
+            elif v and nres > m + n:
+                # the literal reading of the property ("a count-based budget is overshot by at most n_workers")
+                out.append(F("c12:evaluations-overshoot-beyond-n-workers",
+                             f"{nres} results counted when the criterion first holds, with max_num_evaluations={m} and n_workers={n}: "
+                             f"the last poll delivered {last_poll} results at once", {"at": pos}))
+        if v:
+            break
+    # (b2) when the loop is left (status at `on_tuning_end`, before stop_all turns the still running trials into stopped
+    #      ones): started <= m + n_workers; completed / finished <= m + n_workers, with wait_trial_completion_when_stopping
+    #      <= m + 2 n_workers (the trials started in the last regular iteration still run to their end)
+    if snaps and any(cc == ["cb", "tuning_end"] for _, cc, _ in calls):
+        counts = counts_of(snaps[-1])
+        if "max_num_trials_started" in c and counts["started"] > int(c["max_num_trials_started"]) + n:
+            out.append(F("c12:overshoot", f"started={counts['started']} when the loop was left, with "
+                         f"max_num_trials_started={c['max_num_trials_started']} and n_workers={n}"))
+        slack = 2 * n if hdr["wait"] else n
+        for key, fld in count_fields:
+            if key in c and counts[fld] > int(c[key]) + slack:
+                out.append(F("c12:overshoot-end:" + key, f"{fld}={counts[fld]} when the loop was left, with {key}={c[key]}, n_workers={n}, "
+                             f"wait_trial_completion_when_stopping={hdr['wait']}"))
+    # (b3) when run() has returned (after `mark_running_job_as_stopped`): completed as before; finished <= m + 2 n_workers,
+    #      unless `running_trials_ids` was rebound in `_schedule_new_tasks` (F15: the trials started afterwards run unseen)
+    if "last" in fin and not fin_interrupted:
+        got_last = dict((x, y) for x, y in fin["last"])
+        counts = counts_of(got_last)
+        key = "max_num_trials_completed"
+        if key in c and counts["completed"] > int(c[key]) + (2 * n if hdr["wait"] else n):
+            out.append(F("c12:overshoot-end:" + key, f"completed={counts['completed']} when run() returned, with {key}={c[key]}, "
+                         f"n_workers={n}, wait_trial_completion_when_stopping={hdr['wait']}"))
+        key = "max_num_trials_finished"
+        if key in c and counts["finished"] > int(c[key]) + 2 * n:
+            rebound = rebindings(t)
+            if rebound:
+                out.append(F("c01:trial-never-polled-after-rebind",
+                             f"finished={counts['finished']} when run() returned, with {key}={c[key]} and n_workers={n}: the busy list "
+                             f"at call {rebound[0][0]} ({rebound[0][1]} ids) was shorter than the running set ({rebound[0][2]}), the trials "
+                             f"started afterwards never entered the loop's running set (start_jobs_without_delay={hdr['swd']})",
+                             {"rebound_at": rebound[0][0]}))
+            else:
+                out.append(F("c12:overshoot-end:" + key, f"finished={counts['finished']} when run() returned, with {key}={c[key]} and "
+                             f"n_workers={n}"))
+    out += monitor_counters_backend(t)
+    # (c) nothing left running (unless the finaliser itself was interrupted)
     be = t["backend"]
     if not fin_interrupted:
         if isinstance(be, ScriptBackend):
@@ -2041,6 +2301,8 @@ def best_rows_wire(t, view):
 
 
 def monitor_c17(t, view=None):
+    if t.get("skipped"):
+        return []
     out = []
     dlg = t["dlg"]
     calls = _calls(t)
